@@ -25,6 +25,14 @@ ASSUMPTIONS = [
 ALLOWED_ALWAYS = ("OverflowError", "ValueError")  # floor(inf) / floor(nan) in a cast: discarded, not judged
 
 
+def vm_sig(exc):
+    """call-site signature plus a normalised head of the message, so that two defects raising the same
+    exception type at the same opcode (e.g. scalar * vector vs matrix * vector) stay apart"""
+    import re
+    msg = re.sub(r"[0-9]+", "#", str(exc))[:44]
+    return "%s{%s}" % (adapter.exc_sig(exc), msg)
+
+
 def judge_compile(ctx, case, src, opt):
     c = adapter.compile_src(src, optimize=opt)
     if c.ok:
@@ -43,7 +51,32 @@ def analyse(prog):
     is not a non-zero literal; an index that is not a literal or a provably
     bounded form; a non-void function that can fall off its end."""
     from .. import model as M
-    info = {"may_div0": False, "may_oob": False, "may_none": False}
+    info = {"may_div0": False, "may_oob": False, "may_none": False, "float_into_int_store": False,
+            "matrix_times_vector": False}
+
+    def is_int_place(t):
+        return t is not None and t[0] in "svm" and t[1] in ("int", "uint")
+
+    def maybe_float(e):
+        """conservative: some leaf of the expression is float-typed"""
+        if e is None:
+            return False
+        if isinstance(e, (M.Lit, M.Var)):
+            return e.ty[0] in "svm" and e.ty[1] == "float"
+        if isinstance(e, M.Bin):
+            return maybe_float(e.l) or maybe_float(e.r)
+        if isinstance(e, M.Assign):
+            return maybe_float(e.value)
+        if isinstance(e, (M.Index, M.Member)):
+            t = e.ty
+            return (t is not None and t[0] in "svm" and t[1] == "float") or maybe_float(e.base)
+        if isinstance(e, M.Construct):
+            return e.ty[1] == "float" or any(maybe_float(a) for a in e.args)
+        if isinstance(e, M.Call):
+            return e.ty[0] in "svm" and e.ty[1] == "float"
+        if isinstance(e, M.Affix):
+            return e.var.ty[1] == "float"
+        return True
 
     def nonzero_lit(e):
         return isinstance(e, M.Lit) and e.value != 0
@@ -52,11 +85,15 @@ def analyse(prog):
         if e is None or isinstance(e, (M.Lit, M.Var)):
             return
         if isinstance(e, M.Bin):
+            if e.op == "*" and e.l.ty[0] == "m" and e.r.ty[0] == "v":
+                info["matrix_times_vector"] = True
             if e.op in ("/", "%") and not nonzero_lit(e.r):
                 info["may_div0"] = True
             expr(e.l)
             expr(e.r)
         elif isinstance(e, M.Assign):
+            if is_int_place(e.target.ty) and maybe_float(e.value):
+                info["float_into_int_store"] = True
             if e.op == "/=" and not nonzero_lit(e.value):
                 info["may_div0"] = True
             expr(e.target)
@@ -88,6 +125,8 @@ def analyse(prog):
         if s is None:
             return
         if isinstance(s, M.Decl):
+            if s.init is not None and is_int_place(s.ty) and maybe_float(s.init):
+                info["float_into_int_store"] = True
             expr(s.init)
         elif isinstance(s, M.ExprStmt):
             expr(s.e)
@@ -108,9 +147,13 @@ def analyse(prog):
             expr(s.cond)
             stmt(s.body)
         elif isinstance(s, M.Return):
+            if s.e is not None and is_int_place(cur[0].ret) and maybe_float(s.e):
+                info["float_into_int_store"] = True
             expr(s.e)
 
+    cur = [None]
     for f in prog.funcs:
+        cur[0] = f
         stmt(f.body)
         if f.ret != M.VOID and not (f.body.stmts and isinstance(f.body.stmts[-1], M.Return)):
             info["may_none"] = True
@@ -172,7 +215,15 @@ def check(ctx, case):
                     continue
                 # a failure that only the optimised module shows is a different defect than one both show
                 only_opt = "|only-when-optimised" if (opt and (entry, ii) in unopt_ok) else ""
-                ctx.fail("vm|" + adapter.exc_sig(ran.exc) + only_opt, "accepted program fails in the VM (optimize=%s%s): %r\ninvoke %s(%r) globals=%r\n%s" % (
+                # Two recorded findings produce garbage values whose later failure site varies, so they are
+                # attributed structurally (by what the program text contains) instead of by failure site:
+                if meta.get("matrix_times_vector") and not only_opt:
+                    sig = "vm|program-multiplies-a-matrix-by-a-vector"
+                elif "indices must be integers" in str(ran.exc) and meta.get("float_into_int_store") and not only_opt:
+                    sig = "vm|float-stored-into-an-int-place-used-as-index"
+                else:
+                    sig = "vm|" + vm_sig(ran.exc) + only_opt
+                ctx.fail(sig, "accepted program fails in the VM (optimize=%s%s): %r\ninvoke %s(%r) globals=%r\n%s" % (
                     opt, ", the unoptimised module succeeds on this input" if only_opt else "", ran.exc, entry, args, gl, src), case)
         if executed and _uses_nonscalar(src):
             ctx.nontrivial((src, opt))
